@@ -148,7 +148,21 @@ pub fn run_instance(sched: &Value, ea: &Entry, eb: &Entry, ca: i64, cb: i64, see
                 if ok { mutated[o - 1] = true; fresh_done[o - 1] = false; }
                 out.push(json!({"op": "mutate", "o": o, "res": if ok { "Ok" } else { "NotMutable" }}).to_string());
             }
-            "clone" => { let c = objs[a as usize - 1].clone_obj(); maker[o - 1] = maker[a as usize - 1]; mutated[o - 1] = mutated[a as usize - 1]; objs[o - 1] = c; out.push(json!({"op": "clone", "o": o, "a": a, "res": "Ok"}).to_string()); }
+            "clone" => {
+                // Clone has two methods: where the slot already holds a value of the same type, clone_from re-uses it (in place);
+                // both must give a value of the source's class
+                let (ai, oi) = (a as usize - 1, o - 1);
+                let how = if ai != oi {
+                    let src = objs[ai].clone_obj();
+                    match guarded(|| { let mut tgt = objs[oi].clone_obj(); if tgt.clone_from_obj(src.as_ref()) { Some(tgt) } else { None } }) {
+                        Ok(Some(t)) => { objs[oi] = t; "clone_from" }
+                        Ok(None) => { objs[oi] = src; "clone" }
+                        Err(_) => { objs[oi] = src; "clone_from panicked" }
+                    }
+                } else { "self" };
+                maker[oi] = maker[ai]; mutated[oi] = mutated[ai];
+                out.push(json!({"op": "clone", "o": o, "a": a, "how": how, "res": if how == "clone_from panicked" { "Panic: clone_from" } else { "Ok" }}).to_string());
+            }
             "rebuild" => {
                 let e = if maker[a as usize - 1] == 0 { ea } else { eb };
                 // a second value from equal parameters: of the current weights where those are exact, else built the same way
@@ -246,8 +260,11 @@ pub fn replay_with(args: &[String], roundtrip: &dyn Fn(&dyn Obj) -> Option<Resul
             }
             if si % 3 == 0 {
                 // sibling: the neighbouring entry of the same family and float type (near-miss parameters)
-                let sib = |k: usize| reg[k].family == ea.family && reg[k].ft == ea.ft && k != i;
-                if i + 1 < reg.len() && sib(i + 1) { j = i + 1; } else if i > 0 && sib(i - 1) { j = i - 1; }
+                let sib = |k: i64| k >= 0 && (k as usize) < reg.len() && k as usize != i && reg[k as usize].family == ea.family && reg[k as usize].ft == ea.ft && reg[k as usize].variant != "beyond-E";
+                // (entries of the weighted indices alternate between the two index types, so the neighbour may be two or three entries away;
+                // among those prefer one with the same number of parameters)
+                let cands: Vec<i64> = [1i64, -1, 2, -2, 3, -3, 4, -4].iter().map(|d| i as i64 + d).filter(|&k| sib(k)).collect();
+                if let Some(&k) = cands.iter().find(|&&k| reg[k as usize].params.len() == ea.params.len()).or(cands.first()) { j = k as usize; }
             }
             // two registry entries with identical parameters are one class, not two (the model's classes A and B are distinct)
             if reg[j].label() == ea.label() { let mut t = (j + 1) % reg.len(); while reg[t].variant == "beyond-E" || t == i || reg[t].label() == ea.label() { t = (t + 1) % reg.len(); } j = t; }
